@@ -49,7 +49,7 @@ type env struct {
 // the tasks that ended with an interrupt of their own (InterruptAndRerun, or an interrupted nested graph).
 type callRec struct {
 	sched [][]string
-	rr    []string
+	rr    [][]string // parallel to sched: the tasks of the batch that interrupted themselves
 }
 
 func newEnv(c *Case) *env { return &env{c: c, brLog: map[[2]int][][]int{}, reruns: map[int]int{}} }
@@ -599,7 +599,14 @@ func buildGraph(e *env, nodes []NodeSpec, startSucc []int, startBranches []Branc
 			if err != nil {
 				return nil, err
 			}
-			if err := g.AddGraphNode(keyOf(i), sub, opt); err != nil {
+			sopts := []compose.GraphAddNodeOpt{opt}
+			if n.InKey != "" {
+				sopts = append(sopts, compose.WithInputKey(n.InKey))
+			}
+			if n.OutKey != "" {
+				sopts = append(sopts, compose.WithOutputKey(n.OutKey))
+			}
+			if err := g.AddGraphNode(keyOf(i), sub, sopts...); err != nil {
 				return nil, err
 			}
 			continue
@@ -780,12 +787,13 @@ func c19Eager(c *Case) bool { return c.Mode == "workflow" }
 // after one task: every task is a batch of its own, including the tasks the waitAll of an interrupt
 // exit collects (the model puts those together again).
 func schedulesOf(evs []compose.VerifC03Event, eagerTop bool) (all []callRec, top []bool) {
-	var cur [][]string
+	var cur, curRR [][]string
 	var known []bool
 	for _, ev := range evs {
 		for ev.TM >= len(all) {
 			all = append(all, callRec{})
 			cur = append(cur, nil)
+			curRR = append(curRR, nil)
 			top = append(top, false)
 			known = append(known, false)
 		}
@@ -794,26 +802,30 @@ func schedulesOf(evs []compose.VerifC03Event, eagerTop bool) (all []callRec, top
 			top[ev.TM], known[ev.TM] = ok && id < subBase, true
 		}
 		eager := eagerTop && top[ev.TM]
+		flush := func(tm int) {
+			if len(cur[tm]) > 0 {
+				all[tm].sched = append(all[tm].sched, cur[tm])
+				all[tm].rr = append(all[tm].rr, curRR[tm])
+				cur[tm], curRR[tm] = nil, nil
+			}
+		}
 		switch ev.Kind {
 		case "recv":
+			cur[ev.TM] = append(cur[ev.TM], ev.Key)
 			if ev.Err { // the only errors a run survives: the task interrupted itself
-				all[ev.TM].rr = append(all[ev.TM].rr, ev.Key)
+				curRR[ev.TM] = append(curRR[ev.TM], ev.Key)
 			}
 			if eager {
-				all[ev.TM].sched = append(all[ev.TM].sched, []string{ev.Key})
-			} else {
-				cur[ev.TM] = append(cur[ev.TM], ev.Key)
+				flush(ev.TM)
 			}
 		case "empty":
-			if len(cur[ev.TM]) > 0 {
-				all[ev.TM].sched = append(all[ev.TM].sched, cur[ev.TM])
-				cur[ev.TM] = nil
-			}
+			flush(ev.TM)
 		}
 	}
 	for tm := range all {
 		if len(cur[tm]) > 0 {
 			all[tm].sched = append(all[tm].sched, cur[tm])
+			all[tm].rr = append(all[tm].rr, curRR[tm])
 		}
 	}
 	return all, top
